@@ -7,52 +7,7 @@
 (* a single day several can hold at once: Allowed is the set of all that   *)
 (* do, and the property's converse law must hold between the two verdicts. *)
 (***************************************************************************)
-EXTENDS Calendar, FiniteSets, Sequences, TLC
-
-Rels == {"Equal", "Inside", "InsideStart", "InsideEnd", "Outside", "OutsideStart", "OutsideEnd",
-         "PartiallyBefore", "PartiallyAfter", "Before", "After", "EntirelyBefore", "EntirelyAfter"}
-
-Holds(r, x, y, u, v) ==
-  CASE r = "Equal"           -> x = u /\ y = v
-    [] r = "Inside"          -> u < x /\ y < v
-    [] r = "InsideStart"     -> x = u /\ y < v
-    [] r = "InsideEnd"       -> u < x /\ y = v
-    [] r = "Outside"         -> x < u /\ v < y
-    [] r = "OutsideStart"    -> x = u /\ v < y
-    [] r = "OutsideEnd"      -> x < u /\ y = v
-    [] r = "PartiallyBefore" -> x < u /\ u < y /\ y < v
-    [] r = "PartiallyAfter"  -> u < x /\ x < v /\ v < y
-    [] r = "Before"          -> x < u /\ y = u
-    [] r = "After"           -> x = v /\ v < y
-    [] r = "EntirelyBefore"  -> y < u
-    [] r = "EntirelyAfter"   -> v < x
-Allowed(x, y, u, v) == {r \in Rels : Holds(r, x, y, u, v)}
-
-Converse(r) ==
-  CASE r = "Equal" -> "Equal" [] r = "Inside" -> "Outside" [] r = "Outside" -> "Inside"
-    [] r = "InsideStart" -> "OutsideStart" [] r = "OutsideStart" -> "InsideStart"
-    [] r = "InsideEnd" -> "OutsideEnd" [] r = "OutsideEnd" -> "InsideEnd"
-    [] r = "PartiallyBefore" -> "PartiallyAfter" [] r = "PartiallyAfter" -> "PartiallyBefore"
-    [] r = "Before" -> "After" [] r = "After" -> "Before"
-    [] r = "EntirelyBefore" -> "EntirelyAfter" [] r = "EntirelyAfter" -> "EntirelyBefore"
-
-\* the three simplified verdicts of the documentation table
-Simplified(r) ==
-  IF r = "Equal" THEN "Equal"
-  ELSE IF r \in {"Before", "After", "EntirelyBefore", "EntirelyAfter"} THEN "NotEqual"
-  ELSE "PartiallyEqual"
-
-\* the ideal machine's choice when several drawn relations hold: containment beats touching
-Pref == <<"Equal", "InsideStart", "InsideEnd", "OutsideStart", "OutsideEnd", "Inside", "Outside",
-          "PartiallyBefore", "PartiallyAfter", "Before", "After", "EntirelyBefore", "EntirelyAfter">>
-Pick(x, y, u, v) ==
-  LET A == Allowed(x, y, u, v)
-      k == CHOOSE k \in 1..13 : Pref[k] \in A /\ \A j \in 1..(k - 1) : Pref[j] \notin A
-  IN Pref[k]
-
-\* what the two calls receiver.Compare(base), base.Compare(receiver) may return together
-AllowedPairs(x, y, u, v) ==
-  {<<r1, r2>> \in Allowed(x, y, u, v) \X Allowed(u, v, x, y) : r2 = Converse(r1)}
+EXTENDS Calendar, DateCompareRel, FiniteSets, Sequences, TLC
 
 ---------------------------------------------------------------------------
 (* Dates of any granularity as day intervals (for the pairing of day /      *)
